@@ -9,6 +9,7 @@ CONSTANTS
   Deltas = {1, 5, 6}
   SameModes = {TRUE, FALSE}
   MaxTouched = 3
+  GenMaxMixed = 2
   GenWithRepeat = TRUE
   AsCoded = TRUE
 INVARIANT GPrint
